@@ -6,6 +6,8 @@ U = 'pyclifford/utils.py::'
 def C01(run):
     run.deductive(keys=[U + 'acq', U + 'ipow', U + 'p0', U + 'ps0', U + 'acq_mat'],
                   lemmas=['acq_is_anticount'])
+    from . import bounded
+    run.bounded_check('c01_products', bounded.c01_products, Nmax=2 if run.tier == 'quick' else 3)
     return 'proof', 'kernel contracts of the Pauli product discharged for all N'
 
 
